@@ -50,6 +50,7 @@ def run_property(prop: str, src: str | None, tier: str):
     ctx.rule(f"{prop}.api", "every option default and every refusal (guard -> exception) of the functions this property is anchored in "
              "is as confirmed when the census sa/contract.json was taken", owned)
     contract.check(ctx, prop, f"{prop}.api", floor=owned)
+    contract.check_overrides(ctx, f"{prop}.api")
     ctx.verify_floors()
     return model, ctx, mod
 
